@@ -45,7 +45,7 @@ pub open spec fn result_wf(m: &naga::Module, f: &naga::Function) -> bool {
 //@fn entry.rs::location_target_count
 fn location_target_count(binding: &naga::Binding) -> «(r:» usize«)
     ensures
-        r == (match binding { naga::Binding::Location { location, .. } => *location as int + 1, naga::Binding::BuiltIn(_) => 0 }),» // [C14.loc] a location needs location+1 targets, a builtin none
+        r == (match binding { naga::Binding::Location { location, .. } => *location as int + 1, naga::Binding::BuiltIn(_) => 0 }), // [C14.loc] a location needs location+1 targets, a builtin none»
 {
     match binding {
         naga::Binding::Location { location, .. } => *location as usize + 1,
@@ -60,7 +60,7 @@ pub fn fragment_target_count(module: &Module, f: &Function) -> «(r:» usize«)
     requires
         result_wf(module, f), // [C14.pre] the result's type handle is in range (naga invariant)
     ensures
-        needed_targets(module, f, r as int),» // [C14.targets] every written @location is < r, and r is 0 or r-1 is written
+        needed_targets(module, f, r as int), // [C14.targets] every written @location is < r, and r is 0 or r-1 is written»
 {
     «broadcast use axiom_uarena_index_req;»
     // Color targets are indexed by location.
